@@ -1,7 +1,7 @@
 (* C11 -- executable model of the tag management API of
    internal/index/manager/manager.go (AddTag, DelTag, UpdateTag with its six
    exported operations, inheritTagUncertainty), written after the Go code WITH
-   the patches fixes/C11-1..3 applied (validate before mutating).  The order
+   the patches fixes/C11-1..4 applied (validate before mutating).  The order
    of the checks follows the code.  The unpatched UpdateTag is modelled as
    [update_query_orig] for the _refuted witnesses.
 
@@ -229,6 +229,7 @@ Fixpoint dfs (fuel : nat) (ts : tags_t) (nm : name) (todo seen : list name) : df
 Definition edge_count (ts : tags_t) : nat := fold_right (fun kv a => List.length (refs (snd kv)) + a) 0 ts.
 Definition dfs_fuel (ts : tags_t) (todo : list name) : nat := S (List.length todo + edge_count ts).
 
+
 Definition complex (t : tag) : bool := t_data t || nonempty (t_main t) || nonempty (t_sub t).
 
 (* re-point the reverse references after the definition of [nm] changed from [old] to [new] refs *)
@@ -264,7 +265,9 @@ Definition update_query (parse : string -> parse_result) (st : state) (nm qs : s
             | DOk _ =>
                 let nt := mkTag qs (p_main p) (p_sub p) (p_data p) (t_color tg) (t_convs tg) (t_refby tg)
                                 (ids_or_nil p) (all_streams st) in
-                if negb (forallb (has (tags st)) (refs tg ++ refs nt)) then (Crash, st)
+                (* fixes/C11-4: the tag keeps its converters, the new query must stay attachable *)
+                if nonempty (t_convs tg) && complex nt then (Err EComplex, st)
+                else if negb (forallb (has (tags st)) (refs tg ++ refs nt)) then (Crash, st)
                 else
                   let ts1 := map_tags (retarget nm (refs tg) (refs nt)) (tags st) in
                   after_inherit st (set ts1 nm nt) (fun x => x)
